@@ -260,6 +260,14 @@ class CliT:
                 ent['exit'] = self.clk
         self.c.disconnect = spy_disconnect
 
+    def reregister_disconnect(self, legacy):
+        """The application registers another disconnect handler (with or
+        without the reason argument) on the same client object."""
+        if legacy:
+            self.c.on('disconnect', lambda: self._disconnect('?legacy'))
+        else:
+            self.c.on('disconnect', lambda reason: self._disconnect(reason))
+
     def _log(self, ev, **kw):
         self.clk += 1
         d = {'ev': ev, 't': self.sched.now, 'clk': self.clk,
@@ -536,11 +544,20 @@ class CliA:
             self.c.on('connect', phc)
             self.c.on('message', phm)
             self.c.on('disconnect', phd_legacy if legacy else phd)
+            self._dis = (phd, phd_legacy)
         else:
             self.c.on('connect', hc)
             self.c.on('message', hm)
             self.c.on('disconnect', hd_legacy if legacy else hd)
+            self._dis = (hd, hd_legacy)
         self.clk = 0
+
+    def reregister_disconnect(self, legacy):
+        """(see CliT.reregister_disconnect)"""
+        self.c.on('disconnect', self._dis[1] if legacy else self._dis[0])
+
+    def _unused(self):
+        pass
 
     def _log(self, ev, **kw):
         self.clk += 1
